@@ -16,7 +16,7 @@ def impls(db, adt_suffix, trait_suffix, name, idpart=None):
 def own_calls(r, suffix=None, trait=None):
     out = []
     for e in r.events:
-        if len(e.stack) != 1 or e.kind != 'call':
+        if not e.is_own() or e.kind != 'call':
             continue
         if suffix and not (e.callee or '').endswith(suffix):
             continue
